@@ -464,3 +464,22 @@ Lemma calls_draws_random n nsrc k : calls_draws n (calls_random nsrc k) = ((4 + 
 Proof.
   unfold calls_random. rewrite !calls_draws_app, calls_draws_ip, calls_draws_repeat. simpl. unfold call_draws. simpl. lia.
 Qed.
+
+(* ------------------------------------------------------------------------------------------ *)
+(** * what the constructor guarantees to the generation *)
+
+(** an accepted table design stores the number of groups as a genuine integer, and its table has no null TIME *)
+Lemma accepted_table d ps :
+  construct d = Ok ps -> d_visit_type d = Some VtDataframe ->
+  exists f, ps = [("patient_number", VInt (Z.of_nat (n_groups f))); ("df_visits", VFrame f)]%string /\
+            existsb (fun r : idv * option Q => match snd r with None => true | Some _ => false end) (rows f) = false.
+Proof.
+  unfold construct. intros H E. rewrite E in H. unfold set_param_study in H.
+  destruct (lookup "df_visits" (d_params d)) as [[| | | | |f]|]; try discriminate.
+  destruct (has_id f) eqn:Hid; [|discriminate].
+  destruct (validate VtDataframe (d_features d) _) as [[]| |] eqn:V; try discriminate. injection H as <-.
+  exists f. split; [reflexivity|]. unfold validate in V. destruct (check_features (d_features d)); try discriminate.
+  destruct (check_params _ frame_rows) as [[]| |]; try discriminate. unfold frame_checks in V. simpl in V. rewrite Hid in V. simpl in V.
+  destruct (has_time f); simpl in V; [|discriminate].
+  destruct (existsb _ (rows f)); [discriminate|reflexivity].
+Qed.
